@@ -26,8 +26,11 @@ def classify(case):
     if case.get("whole_file"):
         return f"C14:whole-file:{case.get('notion')}:{case.get('history')}"
     if "panic" in case:
-        import ast
-        return "C14:panic:" + ("finish-without-any-block" if case.get("blocks") == "[]" else "block-scan")
+        if case.get("blocks") == "[]":
+            return "C14:panic:finish-without-any-block"
+        if "Option::unwrap()" in str(case.get("panic")):
+            return "C14:panic:unwrap-none-reading-results"
+        return "C14:panic:block-scan"
     return "C14:union-property"
 
 
